@@ -65,9 +65,9 @@ class Malformed(Harness):
         # a line with a different number of columns (one fewer / one more than the others)
         for fmt, base in (("bed3", [[1, 1, 1], [1, 2, 2], [2, 1, 1]]), ("bed6", [[1, 1, 1, 1, 1, 1], [1, 2, 1, 1, 2, 1]])):
             for bad in range(len(base)):
-                for delta in (-1, +1):
+                for delta in (-1, +1, len(base[0])):       # one field fewer, one more, and twice as many (a multiple of the line's count)
                     rows = [list(r) for r in base]
-                    rows[bad] = rows[bad][:-1] if delta < 0 else rows[bad] + [1]
+                    rows[bad] = rows[bad][:-1] if delta < 0 else rows[bad] + ([1] if delta == 1 else list(rows[bad]))
                     for lazy, mode, chunked in ((True, "seek", False), (False, "seek", False), (True, "seek", True)):
                         out.append(dict(fmt=fmt, rows=rows, bad=[bad, "ncols", delta], lazy=lazy, mode=mode, chunked=chunked))
         # float columns (bedGraph value): plain decimals, and a value in scientific notation before / after the offending record (the two
@@ -79,6 +79,14 @@ class Malformed(Harness):
                 dots = {k: -1 for k in exp}
                 for lazy, mode, chunked in ((True, "seek", False), (False, "seek", True)):
                     out.append(dict(fmt="bedgraph", rows=[[1, 1, 1, 3]] * 3, exp=exp, dot=dots, bad=list(bad), lazy=lazy, mode=mode, chunked=chunked))
+        # history: read_chunk() once, then read() of the rest: the line still counts from the start of the data
+        for lazy in (True, False):
+            for mode in ("seek", "prepend"):
+                out.append(dict(fmt="bed3", rows=[[1, 1, 1], [1, 2, 2], [2, 1, 1], [1, 1, 1]], bad=[3, 1, 0], lazy=lazy, mode=mode, chunked=True, then_read=True))
+                out.append(dict(fmt="bed3", rows=[[1, 1, 1], [1, 2, 2], [2, 1, 1]], bad=[1, 2, 1], lazy=lazy, mode=mode, chunked=True, then_read=True))
+                out.append(dict(fmt="fastq", records=[[1, 1], [1, 2], [1, 1]], bad=[2, "marker"], lazy=lazy, mode=mode, chunked=True, then_read=True))
+                out.append(dict(fmt="fastq", records=[[1, 1], [1, 2], [1, 1]], bad=[2, "plus_deleted"], lazy=lazy, mode=mode, chunked=True, then_read=True))
+                out.append(dict(fmt="fasta2", records=[[1, 1], [1, 2], [1, 1]], bad=[1, "marker"], lazy=lazy, mode=mode, chunked=True, then_read=True))
         # the other delimited formats: SAM (flag, position, mapping quality), VCF (position), GTF (start, stop), narrowPeak (summit)
         one = lambda n: [1] * n
         for fmt, ncols, cells in (("sam", 11, ((1, 0), (3, 0), (4, 0))), ("vcf", 8, ((1, 0),)), ("gtf", 9, ((3, 0), (4, 0))), ("narrowpeak", 10, ((9, 0), (2, 0)))):
@@ -214,7 +222,12 @@ class Malformed(Harness):
             reader.set_prepend_mode()
         r = NpDataclassReader(reader, lazy=skel["lazy"])
         n = len(skel.get("records", skel.get("rows")))
-        chunks = [r.read()] if not skel["chunked"] else list(itertools.islice(r.read_chunks(x["k"]), n + 3))
+        if skel.get("then_read"):
+            # history: one chunk is read, then the rest of the file with read(); the fields of the first table are read before the second
+            # call only in the eager case (the lazy table is parsed when its fields are accessed below)
+            chunks = [r.read_chunk(x["k"]), r.read()]
+        else:
+            chunks = [r.read()] if not skel["chunked"] else list(itertools.islice(r.read_chunks(x["k"]), n + 3))
         total = 0
         for ch in chunks:
             if skel.get("whole_object"):
@@ -275,4 +288,82 @@ def _vars(e):
     return out
 
 
-HARNESSES = [Malformed()]
+from checks.C02 import VCF as _VCF, VCF_HEADER as _VCF_HEADER
+
+
+class MalformedInfo(_VCF):
+    """a typed INFO key (Integer DP, declared in the header) whose value is not a number in one record: reading the key raises, and a
+    FormatException carries the line of that record counted from the first record, for every chunk size, lazy and eager"""
+    name = "malformed_info"
+    functions = ("VCFBuffer._get_info_field/_get_dataclass_field", "NamedBufferExtractor.get_field_by_name", "ItemGetter.__call__ (start line)",
+                 "NumpyFileReader.read_chunk (start_line of the buffer)")
+    bounds = {"quick": "sites-only VCF with declared INFO keys, 3 records 'DP=<1-2 bytes>' / 'FL;DP=<byte>'; the first byte of DP of one record is any "
+                       "letter; every record position; whole-file read and every chunk size from the largest record to the size of the records + 1 "
+                       "(symbolic); lazy and eager",
+              "thorough": "same"}
+    assumptions = ("the offending byte is a letter (separators ; , = would make a different, well-formed text)",)
+
+    def skeletons(self, tier, seed):
+        R = lambda dpw, info: dict(chrom=1, pos=1, id=1, ref=1, alt=1, info=info, dpw=dpw, fmt="GT", samples=[])
+        recs = [R(1, "dp"), R(2, "fl_dp"), R(1, "dp")]
+        out = []
+        for bad in range(3):
+            for lazy in (True, False):
+                for chunked in (False, True):
+                    out.append(dict(recs=recs, buffer="VCFBuffer", crlf=False, prior=None, no_samples=True, bad=bad, lazy=lazy, chunked=chunked))
+        return out
+
+    def _body(self, skel, x):
+        header = _VCF_HEADER.replace("\tFORMAT\tS1\tS2", "")
+        return self._content(skel, x)[len(header.encode()):]
+
+    def inputs(self, skel, V):
+        super().inputs(skel, V)
+        from symnp import fresh_int, ENGINE
+        nm = f"v{skel['bad']}_d0"
+        ENGINE.base_pc[:] = [c_ for c_ in ENGINE.base_pc if nm not in [str(d) for d in _vars(c_)]]
+        nv = fresh_int(nm, 65, 122)
+        V.vars[nm] = nv
+        ENGINE.assume(nv.t >= 65); ENGINE.assume(nv.t <= 122); ENGINE.assume(z3.Or(nv.t <= 90, nv.t >= 97))
+        if skel["chunked"]:
+            body = self._body(skel, _Zero(V))
+            lines, cur = [], 0
+            for b in body:
+                cur += 1
+                if b == 10:
+                    lines.append(cur); cur = 0
+            V.int("k", max(lines), len(body) + 1)
+
+    def call(self, skel, x, ctx):
+        from bionumpy.io.parser import NumpyFileReader
+        from bionumpy.io.npdataclassreader import NpDataclassReader
+        import bionumpy.io.vcf_buffers as vb
+        vb.VCFBuffer.vcfentry_cache.clear()
+        vb.VCFBuffer.info_cache.clear()
+        r = NpDataclassReader(NumpyFileReader(ctx.file(self._content(skel, x)), vb.VCFBuffer), lazy=skel["lazy"])
+        chunks = list(itertools.islice(r.read_chunks(x["k"]), 6)) if skel["chunked"] else [r.read()]
+        total = 0
+        for ch in chunks:
+            ctx.lst(ch.info.DP)
+            total += len(ch)
+        return dict(entries=total)
+
+    def post(self, skel, x, out):
+        if not isinstance(out, Exc):
+            return False
+        if out.type == "FormatException":
+            return out.attrs.get("line_number") == skel["bad"]
+        return True
+
+    def oracle(self, skel, cx, cout):
+        text = bytes(self._body(skel, cx))
+        how = f"{'lazy' if skel['lazy'] else 'eager'}, " + (f"min_chunk_size={cx['k']}" if skel["chunked"] else "read()")
+        if not isinstance(cout, Exc):
+            return f"VCF records {text!r} with a non-numeric value of the Integer key DP ({how}): info.DP was read without error"
+        if cout.type == "FormatException" and cout.attrs.get("line_number") != skel["bad"]:
+            return (f"VCF records {text!r} with a non-numeric value of the Integer key DP ({how}): FormatException.line_number="
+                    f"{cout.attrs.get('line_number')}, the offending record is record {skel['bad']}")
+        return None
+
+
+HARNESSES = [Malformed(), MalformedInfo()]
